@@ -47,7 +47,7 @@ func (b *Batch) WriteOutputs(id int, files map[string][]byte) {
 }
 
 var apiErr = regexp.MustCompile(`(?m)^(?:\./)?api/a(\d+)\.go:\d+:\d+: (.*)$`)
-var compErr = regexp.MustCompile(`(?m)^(?:\./)?gen/c(\d+)\.go:\d+:\d+: (.*)$`)
+var compErr = regexp.MustCompile(`(?m)^(?:\./)?(?:gen|sp)/c(\d+)\.go:\d+:\d+: (.*)$`)
 
 // BuildDriver writes the registry and the driver and builds it; generated files that do not compile are
 // attributed to their scenario (one file per converter), removed, and the build is repeated.
@@ -122,6 +122,7 @@ func (b *Batch) BuildDriver(extraImports []string, race bool) error {
 			}
 			delete(b.OK, id)
 			os.Remove(filepath.Join(b.Work, "gen", fmt.Sprintf("c%d.go", id)))
+			os.Remove(filepath.Join(b.Work, "sp", fmt.Sprintf("c%d.go", id)))
 		}
 	}
 	return fmt.Errorf("driver build did not converge")
